@@ -6,6 +6,22 @@ B = 'biogeme.expressions.'
 LAST = 'result[len(result) - 1]'
 
 
+def replay_for(cls):
+    """native re-check of one class on the real code (bounded/c01c_nary.py): an independent transcription of the
+    engine reader applied to the signatures of small instances"""
+    return f"""
+import sys
+sys.path.insert(0, '/verif/bounded')
+import c01c_nary
+try:
+    bad = c01c_nary.check_class({cls!r})
+except Exception as e_:
+    bad = [f'{cls}: the real code raised {{type(e_).__name__}}: {{e_}}']
+violated = bool(bad)
+detail = str((bad or [])[:2])
+"""
+
+
 def header(line, cls, count):
     return {'ok': f'eline_ok({line})',
             'type': f"eline_field({line}, 'type') == '{cls}'",
@@ -16,7 +32,7 @@ def header(line, cls, count):
 # ---- bioMultSum: the generic Expression.get_signature with any number of children ------------------
 _KIDS = 'cat_range(lambda q: self.children[q].get_signature(), 0, LIM)'
 contract(B + 'base_expressions.Expression.get_signature', 'C01', self_class='bioMultSum', label='bioMultSum.get_signature',
-         modifies=[],
+         modifies=[], replay=replay_for('bioMultSum'),
          invariants={1: {'clauses': {'children_first': f"seq_eq(list_of_signatures, old({_KIDS.replace('LIM', '_k')}))"}},
                      2: {'clauses': {**header('mysignature', 'bioMultSum', 'len(self.children)'),
                                      'nitems': 'eline_n(mysignature) == 1 + _k',
@@ -36,7 +52,7 @@ def _cs_pairs(line, lim):
             f'same(eline_item({line}, 2 + 2 * q), {_T}[q].term.get_id()), 0, {lim})')
 
 
-contract(B + 'nary_expressions.ConditionalSum.get_signature', 'C01', modifies=[],
+contract(B + 'nary_expressions.ConditionalSum.get_signature', 'C01', modifies=[], replay=replay_for('ConditionalSum'),
          invariants={1: {'clauses': {'children_first': f"seq_eq(list_of_signatures, old({_CSK.replace('LIM', '_k')}))"}},
                      2: {'clauses': {**header('signature', 'ConditionalSum', f'len({_T})'),
                                      'nitems': 'eline_n(signature) == 1 + 2 * _k',
@@ -56,7 +72,7 @@ def _elem_pairs(line, lim):
             f'same(eline_item({line}, 3 + 2 * q), {_D}[keys_of({_D})[q]].get_id()), 0, {lim})')
 
 
-contract(B + 'nary_expressions.Elem.get_signature', 'C01', modifies=[],
+contract(B + 'nary_expressions.Elem.get_signature', 'C01', modifies=[], replay=replay_for('Elem'),
          invariants={1: {'clauses': {'children_first': f"seq_eq(list_of_signatures, old({_EK.replace('LIM', '_k')}))"}},
                      2: {'clauses': {**header('signature', 'Elem', f'len({_D})'),
                                      'nitems': 'eline_n(signature) == 2 + 2 * _k',
@@ -79,7 +95,7 @@ def _lu_terms(line, lim):
     return 'forall(lambda q: ' + ' and '.join(f'same(eline_item({line}, {o} + 6 * q), {e})' for o, e in parts) + f', 0, {lim})'
 
 
-contract(B + 'nary_expressions.bioLinearUtility.get_signature', 'C01', modifies=[],
+contract(B + 'nary_expressions.bioLinearUtility.get_signature', 'C01', modifies=[], replay=replay_for('bioLinearUtility'),
          invariants={1: {'clauses': {'children_first': f"seq_eq(list_of_signatures, old({_KIDS.replace('LIM', '_k')}))"}},
                      2: {'clauses': {**header('signature', 'bioLinearUtility', f'len({_L})'),
                                      'nitems': 'eline_n(signature) == 1 + 6 * _k',
@@ -100,7 +116,7 @@ def _ll_triples(line, lim):
 
 
 for cls in ('_bioLogLogit', '_bioLogLogitFullChoiceSet'):
-    contract(B + 'logit_expressions.LogLogit.get_signature', 'C01', self_class=cls, label=f'{cls}.get_signature', modifies=[],
+    contract(B + 'logit_expressions.LogLogit.get_signature', 'C01', self_class=cls, label=f'{cls}.get_signature', modifies=[], replay=replay_for(cls),
              requires={'same_keys': "forall(lambda x: (x in self.util) == (x in self.av), ty='int')"},
              invariants={1: {'clauses': {'children_first': f"seq_eq(list_of_signatures, old({_KIDS.replace('LIM', '_k')}))"}},
                          2: {'clauses': {**header('signature', cls, f'len({_U})'),
@@ -121,7 +137,7 @@ def _bt_members(line, lim):
     return f'forall(lambda q: same(eline_item({line}, 2 + q), set_nth(self.the_set, q)), 0, {lim})'
 
 
-contract(B + 'unary_expressions.BelongsTo.get_signature', 'C01', modifies=[],
+contract(B + 'unary_expressions.BelongsTo.get_signature', 'C01', modifies=[], replay=replay_for('BelongsTo'),
          invariants={1: {'clauses': {**header('signature', 'BelongsTo', 'len(self.the_set)'),
                                      'nitems': 'eline_n(signature) == 2 + _k',
                                      'child_id': 'same(eline_item(signature, 1), self.child.get_id())',
